@@ -173,11 +173,14 @@ impl From<&PcapPacket> for Vec<u8> {
     fn from(pkt: &PcapPacket) -> Self {
         let header = pkt.header.borrow().clone();
         let mut bytes: Vec<u8> = (&header).into();
-        if let Some(inner) = pkt.inner.borrow().clone() {
-            let data: Vec<u8> = inner.as_ref().into();
-            bytes.extend_from_slice(&data);
-        } else {
-            bytes.extend_from_slice(&pkt.rawdata.borrow().clone());
+        // An inner layer that failed to parse (error object) has no bytes of
+        // its own: the captured bytes are written as they are
+        match pkt.inner.borrow().clone() {
+            Some(inner) if !inner.is_error() => {
+                let data: Vec<u8> = inner.as_ref().into();
+                bytes.extend_from_slice(&data);
+            }
+            _ => bytes.extend_from_slice(&pkt.rawdata.borrow().clone()),
         }
         bytes
     }
